@@ -53,7 +53,7 @@ func init() {
 		Gen:        genC06,
 		Run:        runC06,
 		Compare:    cmpC06,
-		Shrink:     shrinkC06,
+		Shrink:     c06ShrinkR,
 		Assumptions: []string{
 			"schemas range over the fragment type/nullable/readOnly/writeOnly/minLength/maximum/properties/required/additionalProperties(bool)/items/not/oneOf/anyOf/allOf/minProperties/maxProperties/default (no discriminator); the full validator is property C01",
 			"numbers in bodies are integers |n| ≤ 10^6 and n+0.5 (exact in float64); number texts in forms are decimal [+-]digits or [+-]digits.5 without leading zeros, or non-numeric",
@@ -580,14 +580,8 @@ func runC06(c hx.Case) any {
 	body, _ := c["body"].(map[string]any)
 	text := jstr(body, "text")
 	ct := jstr(c, "ct")
-	var rd io.Reader
-	switch {
-	case text != "":
-		rd = strings.NewReader(text)
-	case jbool(c, "emptyReader"):
-		rd = strings.NewReader("")
-	}
-	req, err := http.NewRequest("POST", "http://example.com/x", rd)
+	kind := jstr(c, "reqKind")
+	req, err := c06BuildRequest(kind, text, jbool(c, "emptyReader"))
 	if err != nil {
 		return map[string]any{"kind": "harness-error", "err": err.Error()}
 	}
@@ -604,6 +598,18 @@ func runC06(c hx.Case) any {
 	out := map[string]any{"ok": verr == nil, "outcome": c06Classify(verr)}
 	if verr != nil {
 		out["msg"] = strings.SplitN(verr.Error(), "\n", 2)[0]
+	}
+	// the same request object validated again (the body was put back): outcomes of all calls
+	if n, _ := jnum(c["repeat"]); n > 0 {
+		rep := []any{c06Classify(verr)}
+		for i := 1; i < n; i++ {
+			rep = append(rep, c06Classify(openapi3filter.ValidateRequestBody(context.Background(), in, rb)))
+		}
+		out["repeated"] = rep
+	}
+	// a request without a body stream carries no bytes: nothing to decode
+	if sh, _ := c["shape"].(map[string]any); sh != nil && jstr(sh, "body") != "stream" {
+		return out
 	}
 	// the body must still be readable afterwards (same bytes) — cheap sanity on the way
 	// public decoder, called directly when the validation reaches decoding
@@ -669,6 +675,20 @@ func cmpC06(c hx.Case, impl any, reply map[string]any) hx.Verdict {
 	if jstr(im, "outcome") != jstr(model, "outcome") {
 		v.IM = false
 		v.Detail = fmt.Sprintf("outcome: impl %s (%s) vs model %s", jstr(im, "outcome"), jstr(im, "msg"), jstr(model, "outcome"))
+	}
+	if mrep := jlist(model["repeated"]); len(mrep) > 0 {
+		irep := jlist(im["repeated"])
+		if fmt.Sprint(irep) != fmt.Sprint(mrep) {
+			v.IM = false
+			v.Detail += fmt.Sprintf(" repeated validation of one request: impl %v vs model %v", irep, mrep)
+		}
+		for _, o := range irep {
+			if applies, ok := spec["applies"].(bool); (!ok || applies) && (fmt.Sprint(o) == "ok") != jbool(spec, "accept") {
+				v.IS = false
+				v.Detail += fmt.Sprintf(" repeated validation: %v, spec accept=%v", irep, jbool(spec, "accept"))
+				break
+			}
+		}
 	}
 	// decoded values (public decoders): implementation vs model
 	if jbool(model, "decoding") {
@@ -1151,6 +1171,8 @@ func genC06(ctx *hx.Ctx, emit func(hx.Case)) {
 	genYamlCsv(ctx, emit)
 	// (E) default injection (DefaultsSet is installed unless Options.SkipSettingDefaults)
 	genDefaults(ctx, emit)
+	// (G) request construction variants (kind of Body, ContentLength, GetBody) and repeated validation
+	genReqShapes(ctx, emit)
 	// random stream
 	nr := 10000
 	if ctx.Thorough() {
@@ -1917,6 +1939,12 @@ func randCase(r *hx.Rng) hx.Case {
 	}
 	if r.Chance(5) && jstr(c["body"].(map[string]any), "text") == "" {
 		c["emptyReader"] = true
+	}
+	if r.Chance(25) {
+		if r.Chance(15) && jbool(c, "skipDefaults") {
+			c["repeat"] = 2 + r.Intn(2)
+		}
+		c = c06WithShape(c, hx.Pick(r, c06ReqKinds))
 	}
 	if r.Chance(4) && jstr(c, "ct") != "" {
 		c["ct2"] = hx.Pick(r, []string{"text/plain", "application/json", "application/x-www-form-urlencoded", "*/*"})
